@@ -25,7 +25,11 @@ def main():
             c.qualname, "[%s]" % c.variant if c.variant else "", run.status, run.paths, run.completed_paths, n, len(bad), run.canary_ok, run.outcomes, time.time() - t))
         if run.message:
             print("   ", run.message)
-        for k, r in bad[:12]:
+        seen = set()
+        for k, r in bad:
+            if k in seen or len(seen) > 8:
+                continue
+            seen.add(k)
             print("   ", r.status, k, "|", r.detail[:300])
             if r.model:
                 print("       model:", {a: b for a, b in list(r.model.items())[:25]})
